@@ -342,7 +342,7 @@ def hals_objective(G, B, V, l1, l2):
 # ----------------------------------------------------------------------------- the runs
 # quick: profiled per kind (CPU s / case at Qops: cp 0.7, hals 0.4, ls 0.5, norm 0.8, reg 1.8, tk 2.5, cmtf 0.7, tkreg 1.9, tr 2.6, spec 0.4, proc 0.2, rep 0.5,
 # tks 4.4, modes 0.02): every kind is kept, the budget is dealt out over the (entry, variant, kind) groups starting at a seed-dependent group
-BUDGET = {"quick": dict(cp=48, hals=20, ls=16, norm=8, reg=4, tk=6, cmtf=5, tkreg=4, tr=5, spec=4, proc=4, rep=8, tks=2, modes=32, loop=40),
+BUDGET = {"quick": dict(cp=48, hals=20, ls=16, norm=8, reg=4, tk=6, cmtf=5, tkreg=4, tr=5, spec=4, proc=4, rep=8, tks=2, modes=32, loop=54),
           "thorough": dict(cp=440, hals=200, ls=180, norm=80, reg=50, tk=60, cmtf=50, tkreg=40, tr=50, spec=60, proc=60, rep=80, tks=20, modes=200, loop=300)}
 KINDS = ("cp", "hals", "ls", "norm", "reg", "tk", "cmtf", "tkreg", "tr", "spec", "proc", "rep", "tks", "modes", "loop")
 
@@ -1637,11 +1637,23 @@ def run_regressors(ctx, n_runs):
                     ctx.add_case("ls", ls_case_lit, dict(A=A, Y=Ym, X=Xm, prev=Xp, lam=reg), dict(entry=entry, inputs=dict(inputs, block=j)))
 
 
-STOP_ALGS = {"parafac": 0, "nn_hals": 0, "tucker": 1, "parafac2": 2, "tr_als": 3, "cmtf": 4, "cpreg": 5, "tkreg": 5}
+STOP_ALGS = {"parafac": 0, "nn_hals": 0, "tucker": 1, "parafac2": 2, "tr_als": 3, "cmtf": 4, "cpreg": 5, "tkreg": 5, "hals": 6}
 
 
-def stop_quantity(alg, abs_crit, a, b):
-    """the quantity the stopping rule of Model/DescentLoop.v compares with tol (a = newest, b = previous value)"""
+STOP_ITEM = {"parafac": "parafac stopping rule", "nn_hals": "non_negative_parafac_hals stopping rule", "tucker": "partial_tucker stopping rule", "parafac2": "parafac2 stopping rule",
+             "tr_als": "tensor_ring_als stopping rule", "cmtf": "CMTF stopping rule", "cpreg": "CPRegressor stopping rule", "tkreg": "TuckerRegressor stopping rule",
+             "hals": "hals_nnls stopping rule"}
+for _n, _e in (("parafac", "tensorly.decomposition.parafac"), ("nn_hals", "tensorly.decomposition.non_negative_parafac_hals"), ("tucker", "tensorly.decomposition.tucker"),
+               ("parafac2", "tensorly.decomposition.parafac2"), ("tr_als", "tensorly.decomposition.tensor_ring_als"), ("cmtf", "tensorly.decomposition.coupled_matrix_tensor_3d_factorization"),
+               ("cpreg", "tensorly.regression.CPRegressor.fit"), ("tkreg", "tensorly.regression.TuckerRegressor.fit"), ("hals", "tensorly.solvers.nnls.hals_nnls")):
+    for _suffix in ((" (abs_rec_error)", " (rec_error)") if _n in ("parafac", "nn_hals") else ("",)):
+        SEM_RULES[STOP_ITEM[_n] + _suffix] = (2, (_e,), ("C07_loop_tape_replay",))
+
+
+def stop_quantity(alg, abs_crit, a, b, first=None):
+    """the quantity the stopping rule of Model/DescentLoop.v compares with tol (a = newest, b = previous value, first = first value of the history)"""
+    if alg == 6:
+        return a / first if first else float("inf")
     if alg == 0:
         return abs(b - a) if abs_crit else (b - a)
     if alg in (1, 2):
@@ -1666,8 +1678,8 @@ def run_stop_rules(ctx, n_runs):
     from tensorly.regression.cp_regression import CPRegressor
     from tensorly.regression.tucker_regression import TuckerRegressor
     chk, rng = ctx.chk, ctx.rng
-    names = ["parafac", "tucker", "cpreg", "parafac2", "tr_als", "cmtf", "tkreg", "nn_hals"]
-    min_it = {0: 1, 1: 2, 2: 1, 3: 1, 4: 1, 5: 2}
+    names = ["parafac", "tucker", "cpreg", "parafac2", "tr_als", "cmtf", "tkreg", "nn_hals", "hals"]
+    min_it = {0: 1, 1: 2, 2: 1, 3: 1, 4: 1, 5: 2, 6: 1}
     for it in range(n_runs):
         name = names[it % len(names)]
         alg = STOP_ALGS[name]
@@ -1724,6 +1736,20 @@ def run_stop_rules(ctx, n_runs):
                 errs = []
                 o = C.call_impl(_tr_als.tensor_ring_als, X.copy(), 2, random_state=seed, callback=lambda tr, e: errs.append(float(e)) and None, tol=tol_, n_iter_max=nmax_, **opts)
                 return o if o[0] != "ok" else ("ok", errs[1:], None)      # the callback sees the initial guess first; rec_errors starts with the first sweep
+        elif name == "hals":
+            from tensorly.solvers.nnls import hals_nnls
+            m_, rk_, n_ = rng.choice([4, 6]), rng.choice([2, 3]), rng.choice([2, 4])
+            U_ = r.rand(m_, rk_) + 0.1
+            X = U_ @ (r.rand(rk_, n_) + 0.1) + 0.2 * r.rand(m_, n_) - (0.3 if rng.random() < 0.5 else 0.0)
+            G_ = U_.T @ U_; G_ = (G_ + G_.T) / 2; B_ = U_.T @ X
+            V0_ = r.rand(rk_, n_) + 0.05
+            if tol: tol = rng.choice([1e-2, 1e-4, 1e-7])
+            entry = "tensorly.solvers.nnls.hals_nnls"
+
+            def call(tol_, nmax_):
+                errs = []
+                o = C.call_impl(lambda: hals_nnls(B_.copy(), G_.copy(), V0_.copy(), n_iter_max=nmax_, tol=tol_, callback=lambda V, e: errs.append(float(e)) and None))
+                return o if o[0] != "ok" else ("ok", errs, None)
         elif name == "cmtf":
             shape, q_ = rng.choice([(3, 3, 2), (4, 3, 3)]), 3
             w0, f0 = rand_cp_init(r, shape, 2)
@@ -1749,14 +1775,14 @@ def run_stop_rules(ctx, n_runs):
                 o = C.call_impl(est.fit, X.copy(), y.copy())
                 return o if o[0] != "ok" else ("ok", [float(v) for v in est.norm_W_], int(est.n_iterations_))
         boundary = None
-        if (it + it // len(names)) % 2 == 1:
+        if (it + it // len(names)) % 2 == 1 or name == "hals":
             # boundary tolerance from the trajectory of a run that does not stop
             o0 = call(1e-300, nmax)
             if o0[0] == "ok" and len(o0[1]) == nmax and all(math.isfinite(v) for v in o0[1]):
                 lo = min_it[alg]
                 i_ = lo if (rng.random() < 0.4 or lo + 1 >= nmax) else rng.randrange(lo, nmax)
                 if 1 <= i_ < nmax:
-                    q0 = stop_quantity(alg, abs_crit, o0[1][i_], o0[1][i_ - 1])
+                    q0 = stop_quantity(alg, abs_crit, o0[1][i_], o0[1][i_ - 1], o0[1][0])
                     if math.isfinite(q0) and q0 > 1e-12:
                         sgn = rng.choice([1.0, -1.0])
                         tol = q0 * (1.0 + sgn * 1e-6); boundary = (i_, sgn)
@@ -1772,16 +1798,24 @@ def run_stop_rules(ctx, n_runs):
         ctx.judged[entry] = ctx.judged.get(entry, 0) + 1
         if not tape or not all(math.isfinite(v) for v in tape):
             ctx.skipped_illcond += 1; continue
+        if name == "parafac2" and not tol:
+            # with a falsy tol parafac2 records an error only in its line-search iterations (none without line search): the list it returns is then not
+            # one value per iteration, so there is nothing to replay (the values it does return are judged like every history)
+            history_check(ctx, entry, inputs, tape, what="error history of a run ended by its stopping rule")
+            chk.hist("stopping rule", "parafac2: tol falsy, history not per iteration (not replayed)")
+            continue
         # the recorded history itself (the regressors record norms of the weight tensor: not a descending quantity)
-        if alg != 5:
+        if alg not in (5, 6):      # (hals_nnls hands the squared norm of the update to its callback, the regressors record norms of the weight tensor)
             vals = tape if alg != 4 else [math.sqrt(max(e, 0.0) / (float(np.sum(X ** 2)) + float(np.sum(Y ** 2)))) for e in tape]
             history_check(ctx, entry, inputs, vals, what="error history of a run ended by its stopping rule")
         chk.count(key=("stopping rule", name, tol, nmax, iters), nontrivial=iters < nmax)
         chk.hist("stopping rule", name + (": fired" if iters < nmax else ": n_iter_max reached") + (" (boundary tolerance)" if boundary else ""))
-        border = any(abs(stop_quantity(alg, abs_crit, tape[i], tape[i - 1]) - tol) <= 1e-9 * max(tol, 1e-300) for i in range(1, len(tape))) or \
+        border = any(abs(stop_quantity(alg, abs_crit, tape[i], tape[i - 1], tape[0]) - tol) <= 1e-9 * max(tol, 1e-300) for i in range(1, len(tape))) or \
             (alg == 4 and any(abs(v - tol) <= 1e-9 * tol for v in tape)) or any(v == 0.0 for v in tape)
         if border:
             ctx.skipped_illcond += 1; continue
+        if iters < nmax:      # only a replay in which the rule FIRED says something about the rule (semantic fallback of the static tie)
+            sem(ctx, STOP_ITEM[name] + ((" (abs_rec_error)" if abs_crit else " (rec_error)") if alg == 0 else ""))
         ctx.add_case("loop", loop_case_lit, dict(alg=alg, abs=abs_crit, tol=tol, nmax=nmax, tape=tape, iters=iters),
                      dict(entry=entry, inputs=dict(inputs, kind="outer loop + stopping rule" + (" (boundary)" if boundary else ""))))
 
@@ -1814,7 +1848,25 @@ def static_tie(chk, ctx=None):
                 failed.append((C07ast.ITEM_OF.get(k, k), "the theorem is not closed for the formula regenerated from the current source: " + (pk.stderr or pk.stdout)[-600:]))
         if not failed:
             failed.append(("?", (p.stderr or p.stdout)[-1200:]))
-    for b in bad:
+    # the stopping rules of the outer loops, regenerated from the sources and re-checked against Model/DescentLoop.v (rule_of)
+    sfiles, sinfo, sbad = C07ast.stop_rules(C.REPO)
+
+    def coqc_stop(name, items):
+        fn = os.path.join(d, name)
+        with open(fn, "w") as f:
+            f.write(C07ast.STOP_HEADER + "\n".join(sfiles[k] for k in items))
+        return subprocess.run(["timeout", "300", "coqc", "-w", "none", "-R", os.path.join(C.COQ, "theories"), "TLV", fn], capture_output=True, text=True, cwd=d)
+    ps = coqc_stop("Stop.v", list(sfiles))
+    chk.checker_cmds.append("coqc on generated build/cases/C07/static_*/Stop.v: stopping tests regenerated from the Python sources (C07_ast.stop_rules) == the model's rules (rule_of)")
+    if ps.returncode != 0:
+        n0 = len(failed)
+        for j, k in enumerate(sfiles):
+            pk = coqc_stop(f"Stop_{j}.v", [k])
+            if pk.returncode != 0:
+                failed.append((k, "the stopping test regenerated from the current source is not the model's rule: " + (pk.stderr or pk.stdout)[-500:]))
+        if len(failed) == n0:
+            failed.append(("?", (ps.stderr or ps.stdout)[-1200:]))
+    for b in list(bad) + list(sbad):
         parts = b.split(": ", 1)
         failed.append((parts[0][len("ast:"):] if parts[0].startswith("ast:") else "?", b))
     fallback = []
@@ -1829,13 +1881,14 @@ def static_tie(chk, ctx=None):
         else:
             chk.broken.append({"what": "corr:C07-static broken tie (source construct not translatable / changed, and not confirmed by the semantic fallback: "
                                        f"{n_sem} dynamic comparisons, {len(veto)} failing)", "detail": detail})
-    chk.cov["static_tie"] = dict(extracted=info, untranslatable=bad, coqc_rc=p.returncode, semantic_fallback=fallback)
+    chk.cov["static_tie"] = dict(extracted=info, untranslatable=bad, coqc_rc=p.returncode, semantic_fallback=fallback, stopping_rules=sinfo, stopping_rules_untranslatable=sbad,
+                                 stopping_rules_coqc_rc=ps.returncode)
 
 
 def PLAN(quick):
     return [(run_corpus, 0), (run_parafac, 80 if quick else 400), (run_fixed_modes, 12 if quick else 36), (run_nn_hals, 18 if quick else 120), (run_hals_nnls, 36 if quick else 300),
             (run_tucker, 18 if quick else 120), (run_tucker_svd, 6 if quick else 24), (run_parafac2, 16 if quick else 72), (run_p2_linestep, 30 if quick else 120), (run_tr_als, 12 if quick else 80),
-            (run_cmtf, 12 if quick else 80), (run_regressors, 12 if quick else 60), (run_stop_rules, 40 if quick else 240)]
+            (run_cmtf, 12 if quick else 80), (run_regressors, 12 if quick else 60), (run_stop_rules, 54 if quick else 270)]
 
 
 def run(chk):
@@ -1851,7 +1904,6 @@ def run(chk):
     for fn, n in PLAN(quick):
         fn(ctx, n)
     ctx.select()
-    static_tie(chk, ctx)
     failing, n_eval, broken = C.run_case_shards("C07", HEADER, "case", ctx.cases, shard=ctx.shard_size, timeout=900)
     chk.checker_cmds.append("coqc (vm_compute, Qops) on generated build/cases/C07/*.v: Corr.C07.failing")
     chk.cov["traces_validated_against_impl"] = n_eval
@@ -1889,6 +1941,7 @@ def run(chk):
             continue
         chk.finding(descr["entry"], inp, f"{kind} block: the implementation's block state disagrees with the exact model block "
                     "(system mismatch, solve certificate violated, next iterate / normalised state differs or exact objective increases)", "C07_block_refinement")
+    static_tie(chk, ctx)
     chk.assumptions = ["block problems well conditioned (condition number of every solved system <= 1e4 on the generated inputs; others skipped and counted)",
                        "tl.solve / tl.lstsq / SVD are oracles: their answers are data, checked against the certificate of the model's system",
                        "HOOI and PARAFAC2 projections: reported and recomputed histories are judged; Ky Fan / Procrustes optimality are named hypotheses of the _partial theorems"]
